@@ -73,6 +73,36 @@ CHECKS['C02'] = dict(
          'in complete crawls of sites offering out-of-scope links, requisites and redirects is judged by CrawlMon.',
     design_ref='DESIGN.md 5 (C02)')
 
+CHECKS['C14'] = dict(
+    technique='TLA+ reference model (URLTable.tla) checked by TLC; real SQLiteURLTable / URLTableHookWrapper histories '
+              '(TLC-generated per-transition and simulated scenarios, seeded random histories) validated by TLC monitor '
+              'and strict trace specs',
+    text='URLTable.tla is a sequential reference model of SQLiteURLTable/URLTableHookWrapper (one action per public call = '
+         'one transaction; rows, row ids, url_strings, hostnames, queued_files, visits, wrapper counter).  TLC checks 24 '
+         'clauses over <projection before, call, result, projection after> exhaustively: 2 URLs x all calls x 4 property '
+         'templates x batches <= 2 to depth 3, 3 URLs x all calls to depth 3, 3 URLs x core calls to depth 5 (re-add is '
+         'a no-op and not reported; exactly the new URLs reported; only removal deletes; status changes only by '
+         'check-out/in/update/release; try +1 exactly when asked; depth stable; not-found iff none eligible; release '
+         'exact; reopen identity; reads agree; failures atomic; nothing else raises).  The real table is executed in '
+         'memory, on disk with close+reopen, and through the hook wrapper on one history per transition of the bounded '
+         'model, on TLC-simulated histories (5 URLs x 30 calls) and on seeded random histories of 50-200 calls over '
+         '10-20 arbitrary URL strings; after every call the result and the table contents read back by SQL are recorded; '
+         'TLC validates each trace against URLTableMon (VIOLATION) and URLTableTrace (DRIFT).',
+    design_ref='DESIGN.md 5 (C14)')
+CHECKS['C17'] = dict(
+    technique='TLA+ model (FtpControl.tla) checked by TLC; TLC-generated server strategies replayed against the real FTP '
+              'client over fakenet/vloop; recorded conversations validated by TLC monitor and strict trace specs',
+    text='FtpControl.tla is a byte-level model of the FTP control conversation (Session.start/start_listing/download, '
+         'Commander, ControlStream.read_reply, Reply.parse, Command.to_bytes, login table, PASV parse).  TLC checks '
+         'one-command-one-line, the command-order automaton, reply assembly equal to the whole-stream reference and '
+         'completion-only-after-data-EOF-and-2xx-final exhaustively for every alphabet string <= 2 in user/password/path, '
+         '9 reply shapes x every cut, every data-close timing, dropped connections and two sessions.  The real '
+         'Client/Session runs over an in-memory network under a virtual loop for every TLC-enumerated server strategy, '
+         'TLC-simulated behaviours, every percent-encoded alphabet string <= 3 per URL position, Command.to_bytes '
+         'directly, and every 2-piece / byte-wise / composition cut of each shape at each step; each recorded '
+         'conversation is validated by FtpControlMon (VIOLATION) and FtpControlTrace (DRIFT).',
+    design_ref='DESIGN.md 5 (C17)')
+
 NOT_YET = {}
 
 
